@@ -34,6 +34,15 @@ from ..paths import R
 from ..selftest import Mutant
 
 PROP = "C03"
+REG = {
+    "strength": "partial",
+    "technique": "typestate exploration of the model extracted from HttpStream's AST (path-effect enumeration, helper inlining) + predicate table",
+    "claim": "every reachable transition of the extracted HttpStream model (all state functions x all HTTP events the environment "
+    "automaton can deliver, addon effects havocked at hooks) respects: requestheaders first; never response and error; at most once / "
+    "ordered hooks; terminal flows have exactly one outcome and are not live; close handling yields protocol errors.",
+    "note": "Model = over-approximation extracted from source on every run; named refinements are printed in the evidence. "
+    "Loops unrolled once; lower layers' event order is an environment automaton stated in the evidence.",
+}
 
 H1 = "mitmproxy/proxy/layers/http/_http1.py"
 H2 = "mitmproxy/proxy/layers/http/_http2.py"
